@@ -22,6 +22,14 @@ pub trait Engine {
     type T: Serialize + DeserializeOwned + Clone;
     const FAMILY: &'static str;
     fn generate(prop: &str, seed: u64) -> Self::T;
+    /// Run `index` of a batch; enumerating engines override this and ignore the seed.
+    fn generate_at(prop: &str, seed: u64, index: u64) -> Self::T {
+        Self::generate(prop, crate::rng::run_seed(seed, prop, index))
+    }
+    /// Size of the batch for a tier, if the engine enumerates a finite space.
+    fn fixed_total(_tier: &str) -> Option<u64> {
+        None
+    }
     fn run(t: &Self::T, verbose: bool, no_taint: bool) -> Outcome;
     fn len(t: &Self::T) -> usize;
     /// The trace without steps `from..to`.
